@@ -4,7 +4,7 @@ CFG = {
     'level': 'fault_enumeration',
     'design_ref': '5.1 C01',
     'technique': 'runtime monitoring with fault injection under the race detector: a real sumdb.Client runs in a simulated world (own RFC 6962 log + own Ed25519 note signer); the honest run records the responses and cache files actually consumed, every one of them is then faulted by every mutator; online monitors on Lookup results, WriteCache and WriteConfig decide authenticity with independent code',
-    'level_text': 'For every tree size 1..24 and around 32/64 (thorough: 1..40, 47, 100 and around 64/128/256/1024/4097), tile heights 1,2,3,8 (thorough 1,2,3,4,5,8,10), looked-up records and five cache states (cold, warm from a smaller tree, warm from the same tree, stored head only, cache filled from a larger tree), the honest lookup must succeed; then each consumed response x mutator (generic byte faults, tile slot faults, authentic-but-different records, stale heads, renumbered ids, forged text, foreign and duplicate signatures, operator-signed heads with smuggled lines), poisoned cache files, 2-3 simultaneous faults and self-consistent forged record+tile chains through k tile levels are replayed; a lookup may only succeed with the lines of an authentic record, every WriteCache/WriteConfig argument must be authentic, and a fresh honest client over whatever was persisted must succeed.'
+    'level_text': 'For every tree size 1..24 and around 32/64 (thorough: 1..40, 47, 100 and around 64/128/256/1024/4097), tile heights 1,2,3,8 (thorough 1,2,3,4,5,8,10), looked-up records and five cache states (cold, warm from a smaller tree, warm from the same tree, stored head only, cache filled from a larger tree), the honest lookup must succeed; then each consumed response x mutator (generic byte faults, tile slot faults, authentic-but-different records, stale heads, renumbered ids, forged text, foreign and duplicate signatures, operator-signed heads with smuggled lines), poisoned cache files, 2-3 simultaneous faults, self-consistent forged record+tile chains through k tile levels and a wholly forged log whose head carries one of nine signature blocks without a valid signature are replayed (log versions include ones ending in letters of "/go.mod"); a lookup may only succeed with the lines of an authentic record, every WriteCache/WriteConfig argument must be authentic, and a fresh honest client over whatever was persisted must succeed.'
                " Added after seeded changes: a fifth cache state (cache filled from a larger tree, so cached full tiles are sliced to partial ones) and the fault family 'partial tile 404 + completed full tile with true prefix / corrupt prefix / ragged length'.",
     'level_note': 'Faults are enumerated over the responses the honest run consumed (single faults exhaustively per mutator with PRNG-chosen positions; multi-faults sampled). The adversary does not hold the signing key except for the smuggled-lines head. Trusts crypto/ed25519, crypto/sha256, ref/refmerkle and the note/tree/record format readers in harness/world.',
     'race': True,
